@@ -107,6 +107,12 @@ def is_consistent(frames, table):
     return True
 
 
+def _rows_ok_without_nodes(ab):
+    """Lean's `Consistent` does not demand that a region exists (the theorems add that separately):
+    with no region at all it holds iff no row has a parent"""
+    return not any(r[3] > 0 for r in ab["table"])
+
+
 def expected_graph(frames, table):
     """nodes [(t,label,centroid)] in (frame,label) order; edge multiset as sorted list of pairs of
     (t,label) keys"""
@@ -645,6 +651,11 @@ def run(ck: common.Check):
         _, exp_edges = expected_graph(ab["frames"], ab["table"]) if consistent else (None, [])
         ck.case({k: c[k] for k in c if k != "frames"} | {"n_frames": len(c["frames"])},
                 tag=f"{tag}|{c.get('ndim')}D|seg={c.get('seg')}|{c.get('via')}", nontrivial=bool(exp_edges))
+        if model is not None and "err" not in model[idx]:
+            # the harness' notion of `consistent` must be the hypothesis of the theorems
+            py_cons = is_consistent(ab["frames"], ab["table"]) or not any(ab["frames"]) and _rows_ok_without_nodes(ab)
+            if model[idx].get("consistent") != py_cons:
+                ck.corr_broken("C15:consistentB", c, py_cons, model[idx].get("consistent"))
         if model is not None and not (c.get("preexisting") and not c.get("overwrite")):
             mo = model[idx]
             if "err" in mo:
